@@ -99,15 +99,42 @@ class Events(Monitor):
         self.props = set(props)
 
     def before_op(self, world, i, op, pre):
+        self.unexamined = None
+        if getattr(self, "last_n_seen", None) is not None and self.last_n_seen < pre["n"] and getattr(self, "last_evs", None):
+            # the previous call recorded rows that no callback round followed (it was left by an exception): whatever is monitored, those
+            # steps are accepted steps; they are judged once the caller has had the chance to resume (end of this op)
+            self.unexamined = (self.last_n_seen - 1, pre["n"] - 1, self.last_evs)
         self.n_seen = pre["n"]
         self.ev_seen = len(world.system.events)
         self.ev0 = len(world.system.events)
         self.start_t = _f(pre["t"][-1])
         self.target = op_target(world, op)
-        self.dir = sgn(self.target - self.start_t) if np.isfinite(self.target) else sgn(world.system.dt)
+        self.dir = sgn(self.target - self.start_t) if np.isfinite(self.target) else (1 if self.target > 0 else -1)      # an infinite target names the direction itself
         self.rolled_back = False
         self.ic_seen = len(world.icalls)
         self.steps = []         # (row_a, row_b, [event indices appended during this step])
+
+    def _c08_plain(self, world, t, y, a_row, b_row, evs, events, eps, note=""):
+        for r in range(a_row, b_row):
+            t1, t2 = t[r], t[r + 1]
+            for ev in evs:
+                g1 = _f(g_math(world, ev, t1, y[r]))
+                g2 = _f(g_math(world, ev, t2, y[r + 1]))
+                if not (g1 * g2 < 0):
+                    continue
+                up = g1 < 0 < g2          # along the direction of integration (row order)
+                if ev.direction > 0 and not up:
+                    continue
+                if ev.direction < 0 and up:
+                    continue
+                world.probe("sign_change_steps")
+                l2, h2 = min(t1, t2), max(t1, t2)
+                tol2 = 4 * eps * max(1.0, abs(_f(l2)), abs(_f(h2)))
+                found = any((e.event is ev) and (l2 - tol2 <= e.t <= h2 + tol2) for e in events)
+                if not found:
+                    gmin_rel = min(abs(g1), abs(g2)) / (abs(float(ev.scale)) * (abs(float(ev.c)) + 1.0))
+                    world.violate("C08", "C08.crossing_reported", "event %d (%s, scale %g, direction %d) changes sign over the accepted step [%r,%r] (g: %.3e -> %.3e) but no event is reported there%s"
+                                  % (ev.idx, ev.kind, ev.scale, ev.direction, _f(t1), _f(t2), g1, g2, note), facts={"gmin_rel": gmin_rel})
 
     # ---------------------------------------------------------------- in loop
     def on_step(self, world, system):
@@ -229,26 +256,7 @@ class Events(Monitor):
                               % (ev.idx, ev.kind, ev.scale, ev.direction, _f(ta), _f(tb), gs[q0], gs[q0 + 1], q0 + 1, len(gs) - 1,
                                  " [sub-steps are not monitored: artefact of the roll-back]" if artefact else ""), facts=facts)
         elif "C08" in self.props:
-            for r in range(a_row, b_row):
-                t1, t2 = t[r], t[r + 1]
-                for ev in evs:
-                    g1 = _f(g_math(world, ev, t1, y[r]))
-                    g2 = _f(g_math(world, ev, t2, y[r + 1]))
-                    if not (g1 * g2 < 0):
-                        continue
-                    up = g1 < 0 < g2          # along the direction of integration (row order)
-                    if ev.direction > 0 and not up:
-                        continue
-                    if ev.direction < 0 and up:
-                        continue
-                    world.probe("sign_change_steps")
-                    l2, h2 = min(t1, t2), max(t1, t2)
-                    tol2 = 4 * eps * max(1.0, abs(_f(l2)), abs(_f(h2)))
-                    found = any((e.event is ev) and (l2 - tol2 <= e.t <= h2 + tol2) for e in events)
-                    if not found:
-                        gmin_rel = min(abs(g1), abs(g2)) / (abs(float(ev.scale)) * (abs(float(ev.c)) + 1.0))
-                        world.violate("C08", "C08.crossing_reported", "event %d (%s, scale %g, direction %d) changes sign over the accepted step [%r,%r] (g: %.3e -> %.3e) but no event is reported there"
-                                      % (ev.idx, ev.kind, ev.scale, ev.direction, _f(t1), _f(t2), g1, g2), facts={"gmin_rel": gmin_rel})
+            self._c08_plain(world, t, y, a_row, b_row, evs, events, eps)
         if len(new) >= 2:
             world.probe("multiple_events_in_one_step")
         self.steps.append((a_row, b_row, new))
@@ -258,6 +266,25 @@ class Events(Monitor):
     # ---------------------------------------------------------------- after op
     def after_op(self, world, i, op, pre, snap):
         evs = world.cur_events
+        # bookkeeping for rows that no callback round followed
+        if snap["kind"] == "integrate":
+            self.last_n_seen = self.n_seen if evs else snap["n"]
+            self.last_evs = list(evs) if evs else None
+            if snap["n"] < pre["n"]:
+                self.last_n_seen = snap["n"]
+        elif snap["kind"] == "reset":
+            self.last_n_seen, self.last_evs = None, None
+        if "C08" in self.props and snap["kind"] == "integrate" and getattr(self, "unexamined", None) and snap["n"] >= self.unexamined[1] + 1:
+            a_, b_, evs_prev = self.unexamined
+            self.unexamined = None
+            world.probe("rows_recorded_without_callback_round")
+            self._c08_plain(world, snap["t"], snap["y"], a_, b_, evs_prev, world.system.events, eps_of(snap["y"].dtype),
+                            note=" [step recorded by a call that was left by an exception; judged after the resume]")
+        if "C09" in self.props and snap["kind"] == "integrate" and snap["exc"] is not None and not world.raised_by_op.get(i) \
+                and not any(fr["fault"]["kind"] == "spike" for fr in world.fired):
+            # no peer was made to fail in this call: finite or infinite target, either direction, it has to stop at an event or reach its target
+            world.violate("C09", "C09.call_raises", "call %d (target %r) raised %s without an injected fault: %s"
+                          % (i, op.get("t"), snap["exc_type"], str(snap["exc"])[:100]))
         if snap["kind"] != "integrate" or not evs:
             return
         sysm = world.system
@@ -266,6 +293,14 @@ class Events(Monitor):
         eps = eps_of(dtype)
         events = sysm.events
         new = list(range(self.ev0, len(events)))
+        if "C09" in self.props and snap["exc"] is None and "terminated upon finding" in snap["status"] and snap["n"] > pre["n"] \
+                and not any(events[j].event.is_terminal for j in new):
+            short = (not np.isfinite(self.target)) or abs(_f(t[-1]) - self.target) > 64 * eps * max(1.0, abs(self.target), abs(self.start_t))
+            # (a stop at a terminal event that an earlier, interrupted call had already recorded is reported there, not again)
+            at_recorded = any(e_.event.is_terminal and abs(_f(e_.t) - _f(t[-1])) <= 4 * eps ** 0.7 * max(1.0, abs(_f(t[-1]))) for e_ in events)
+            if short and not at_recorded:
+                world.violate("C09", "C09.terminal_event_reported", "call %d stopped at t=%r short of its target %r with status 'terminated by event', but reported no terminal event (%d new events)"
+                              % (i, _f(t[-1]), self.target, len(new)))
         terminated = ("terminated upon finding" in snap["status"] and snap["exc"] is None
                       and any(events[j].event.is_terminal for j in new))        # the status text survives later calls
         spiked = any(fr["fault"]["kind"] == "spike" for fr in world.fired)
